@@ -737,38 +737,60 @@ pub fn c14_oracle(plan: &Plan, rr: &RunResult, o: &mut Outcome) {
                     })
                 };
                 let rd_sc = |img: &Trace, p: &str| -> Option<Scalar> { img.find(p).and_then(|i| refc::sc_opt(img.atom_bytes(i))) };
-                let mut hidden: Vec<(String, Option<Scalar>)> = Vec::new();
+                let mut hidden: Vec<(String, Option<Scalar>, &'static str)> = Vec::new();
                 let mrs = "commitment_proof.message_response_scalars";
                 match (ev.kind.as_str(), &ev.image_after) {
                     ("establish-proof", Some((_, img))) => {
-                        hidden.push((format!("state_proof.{}[1]", mrs), rd_sc(img, "state.nonce")));
-                        hidden.push((format!("state_proof.{}[2]", mrs), rd_sc(img, "state.revocation_pair.lock")));
-                        hidden.push((format!("close_state_proof.{}[2]", mrs), rd_sc(img, "state.revocation_pair.lock")));
-                        hidden.push(("state_proof.commitment_proof.blinding_factor_response_scalar".into(), rd_sc(img, "pay_token_blinding_factor")));
-                        hidden.push(("close_state_proof.commitment_proof.blinding_factor_response_scalar".into(), rd_sc(img, "close_state_blinding_factor")));
+                        hidden.push((format!("state_proof.{}[1]", mrs), rd_sc(img, "state.nonce"), "nonce"));
+                        hidden.push((format!("state_proof.{}[2]", mrs), rd_sc(img, "state.revocation_pair.lock"), "lock"));
+                        hidden.push((format!("close_state_proof.{}[2]", mrs), rd_sc(img, "state.revocation_pair.lock"), "lock"));
+                        hidden.push(("state_proof.commitment_proof.blinding_factor_response_scalar".into(), rd_sc(img, "pay_token_blinding_factor"), "bf-state"));
+                        hidden.push(("close_state_proof.commitment_proof.blinding_factor_response_scalar".into(), rd_sc(img, "close_state_blinding_factor"), "bf-close"));
                     }
                     ("start-message", Some((_, img))) => {
                         let id = img.find("new_state.channel_id").map(|i| refc::sc_raw(img.atom_bytes(i)));
                         for pf in ["state_proof", "close_state_proof"] {
-                            hidden.push((format!("[1].{}.{}[0]", pf, mrs), id));
-                            hidden.push((format!("[1].{}.{}[2]", pf, mrs), rd_sc(img, "new_state.revocation_pair.lock")));
-                            hidden.push((format!("[1].{}.{}[3]", pf, mrs), rd_u64(img, "new_state.customer_balance")));
-                            hidden.push((format!("[1].{}.{}[4]", pf, mrs), rd_u64(img, "new_state.merchant_balance")));
+                            hidden.push((format!("[1].{}.{}[0]", pf, mrs), id, "id"));
+                            hidden.push((format!("[1].{}.{}[2]", pf, mrs), rd_sc(img, "new_state.revocation_pair.lock"), "new-lock"));
+                            hidden.push((format!("[1].{}.{}[3]", pf, mrs), rd_u64(img, "new_state.customer_balance"), "customer-balance"));
+                            hidden.push((format!("[1].{}.{}[4]", pf, mrs), rd_u64(img, "new_state.merchant_balance"), "merchant-balance"));
                         }
-                        hidden.push((format!("[1].state_proof.{}[1]", mrs), rd_sc(img, "new_state.nonce")));
-                        hidden.push((format!("[1].old_pay_token_proof.{}[0]", mrs), id));
-                        hidden.push((format!("[1].old_pay_token_proof.{}[2]", mrs), rd_sc(img, "old_state.revocation_pair.lock")));
-                        hidden.push((format!("[1].old_pay_token_proof.{}[3]", mrs), rd_u64(img, "old_state.customer_balance")));
-                        hidden.push((format!("[1].old_pay_token_proof.{}[4]", mrs), rd_u64(img, "old_state.merchant_balance")));
-                        hidden.push(("[1].old_revocation_lock_proof.message_response_scalars[0]".into(), rd_sc(img, "old_state.revocation_pair.lock")));
-                        hidden.push(("[1].state_proof.commitment_proof.blinding_factor_response_scalar".into(), rd_sc(img, "blinding_factors.for_pay_token")));
-                        hidden.push(("[1].close_state_proof.commitment_proof.blinding_factor_response_scalar".into(), rd_sc(img, "blinding_factors.for_close_state")));
-                        hidden.push(("[1].old_revocation_lock_proof.blinding_factor_response_scalar".into(), rd_sc(img, "blinding_factors.for_old_revocation_lock")));
+                        hidden.push((format!("[1].state_proof.{}[1]", mrs), rd_sc(img, "new_state.nonce"), "new-nonce"));
+                        hidden.push((format!("[1].old_pay_token_proof.{}[0]", mrs), id, "id"));
+                        hidden.push((format!("[1].old_pay_token_proof.{}[2]", mrs), rd_sc(img, "old_state.revocation_pair.lock"), "old-lock"));
+                        hidden.push((format!("[1].old_pay_token_proof.{}[3]", mrs), rd_u64(img, "old_state.customer_balance"), "customer-balance"));
+                        hidden.push((format!("[1].old_pay_token_proof.{}[4]", mrs), rd_u64(img, "old_state.merchant_balance"), "merchant-balance"));
+                        hidden.push(("[1].old_revocation_lock_proof.message_response_scalars[0]".into(), rd_sc(img, "old_state.revocation_pair.lock"), "old-lock"));
+                        hidden.push(("[1].state_proof.commitment_proof.blinding_factor_response_scalar".into(), rd_sc(img, "blinding_factors.for_pay_token"), "bf-state"));
+                        hidden.push(("[1].close_state_proof.commitment_proof.blinding_factor_response_scalar".into(), rd_sc(img, "blinding_factors.for_close_state"), "bf-close"));
+                        hidden.push(("[1].old_revocation_lock_proof.blinding_factor_response_scalar".into(), rd_sc(img, "blinding_factors.for_old_revocation_lock"), "bf-lock"));
+                        // the digits of the new balances (one digit proof each, as many as the message holds)
+                        for (which, bal) in [("customer_balance_proof", "new_state.customer_balance"), ("merchant_balance_proof", "new_state.merchant_balance")] {
+                            if let Some(i) = img.find(bal) {
+                                let mut x = [0u8; 8];
+                                x.copy_from_slice(img.atom_bytes(i));
+                                let mut v = u64::from_le_bytes(x);
+                                let mut j = 0;
+                                loop {
+                                    let zp = format!("[1].{}.digit_proofs[{}].commitment_proof.message_response_scalars[0]", which, j);
+                                    if t.find(&zp).is_none() {
+                                        break;
+                                    }
+                                    hidden.push((zp, Some(Scalar::from(v % 128)), "digit"));
+                                    v /= 128;
+                                    j += 1;
+                                }
+                            }
+                        }
                     }
                     _ => {}
                 }
                 let mut checked = 0u64;
-                for (zpath, mval) in hidden {
+                // masks of values in different link classes must differ (sharing a mask between two
+                // different hidden values discloses one as soon as the other is disclosed); digits
+                // are each their own class
+                let mut by_mask: std::collections::BTreeMap<Vec<u8>, (String, &'static str)> = std::collections::BTreeMap::new();
+                for (zpath, mval, class) in hidden {
                     let (zi, mval) = match (t.find(&zpath), mval) {
                         (Some(zi), Some(mv)) => (zi, mv),
                         _ => crate::harness_error(&format!("C14: cannot locate response scalar `{}` or its hidden value (field naming drift)", zpath)),
@@ -783,6 +805,27 @@ pub fn c14_oracle(plan: &Plan, rr: &RunResult, o: &mut Outcome) {
                         continue;
                     }
                     checked += 1;
+                    // a mask must be a full-size field element: a short one lets the merchant test
+                    // candidate values of a small hidden domain (a digit, a balance)
+                    if mask[20..].iter().all(|b| *b == 0) {
+                        o.violate(
+                            "mask-of-hidden-value-too-short",
+                            &format!("{}:{}", kind_site, strip_idx(&zpath)),
+                            format!("channel {} payment {}: the commitment scalar masking {} is shorter than 160 bits", ev.chan, ev.pay, zpath),
+                        );
+                    }
+                    match by_mask.get(&mask) {
+                        Some((other, oclass)) if *oclass != class || class == "digit" => {
+                            o.violate(
+                                "mask-shared-between-hidden-values",
+                                &format!("{}:{}", kind_site, strip_idx(&zpath)),
+                                format!("channel {} payment {}: {} ({}) and {} ({}) are masked by the same commitment scalar", ev.chan, ev.pay, zpath, class, other, oclass),
+                            );
+                        }
+                        _ => {
+                            by_mask.insert(mask.clone(), (zpath.clone(), class));
+                        }
+                    }
                     // a mask can coincide with a *response* scalar of the same message only when a
                     // linked hidden value is zero (z = s), which discloses nothing; what must not
                     // happen is that it is one of the scalars the message reveals as such
@@ -891,7 +934,7 @@ impl Prop for C14 {
         let plan = plan_of(case);
         let rr = run_plan(&plan, &mut o);
         c14_oracle(&plan, &rr, &mut o);
-        keep(&mut o, &["mask-of-hidden-value-revealed", "value-reuse", "secret-in-message", "hidden-balance-in-message", "nonce-not-fresh", "revocation-lock-not-fresh", "channel-id-not-fresh", "panic"]);
+        keep(&mut o, &["mask-shared-between-hidden-values", "mask-of-hidden-value-too-short", "mask-of-hidden-value-revealed", "value-reuse", "secret-in-message", "hidden-balance-in-message", "nonce-not-fresh", "revocation-lock-not-fresh", "channel-id-not-fresh", "panic"]);
         o.nontrivial = o.stats.get("probe.customer_messages_checked").cloned().unwrap_or(0) >= 3;
         o
     }
@@ -899,7 +942,7 @@ impl Prop for C14 {
         shrink_world_case(case)
     }
     fn rule(&self) -> String {
-        "one case = one multi-channel plan (2-4 channels over two merchants, 0-3 payments each, closes from every stage, refused replies, drawn interleaving; in a third of the cases additionally a zero draw injected at a drawn draw index of the customer's generator inside start / close, in which case only signature elements are judged and the identity is exempt); after the run every 32/48/96-byte atom of every customer-to-merchant message is compared with all atoms of all earlier messages in either direction and of the public parameters (channel id exempt), with the atoms of the customer's stage image before/after the step minus what the message discloses by design, and with the scalar encodings of hidden balances; and for every response scalar over a hidden value the commitment scalar that masks it (computed from the customer's state and the merchant's challenge, read through the hook) must not occur in the merchant's view. Distinct = distinct executed event/outcome sequence; non-trivial = at least three customer messages were checked".into()
+        "one case = one multi-channel plan (2-4 channels over two merchants, 0-3 payments each, closes from every stage, refused replies, drawn interleaving; in a third of the cases additionally a zero draw injected at a drawn draw index of the customer's generator inside start / close, in which case only signature elements are judged and the identity is exempt); after the run every 32/48/96-byte atom of every customer-to-merchant message is compared with all atoms of all earlier messages in either direction and of the public parameters (channel id exempt), with the atoms of the customer's stage image before/after the step minus what the message discloses by design, and with the scalar encodings of hidden balances; and for every response scalar over a hidden value the commitment scalar that masks it (computed from the customer's state and the merchant's challenge, read through the hook) must not occur in the merchant's view, must be a full-size field element, and must not be shared between values of different link classes. Distinct = distinct executed event/outcome sequence; non-trivial = at least three customer messages were checked".into()
     }
     fn assumptions(&self) -> Vec<String> {
         vec!["exact-value reuse is a necessary condition for unlinkability, not a proof of zero knowledge".into(), "equalities inside one message (linked response scalars) are allowed".into()]
